@@ -143,3 +143,12 @@ chk('C14', 'translation_validation',
     '(symbolic strings <= 6 characters) on expand_tabs, is_continuation, the comment-line pattern and Card.content.',
     TV_NOTE + '; respelling rules limited to vt/respell.py; CrossHair lemmas not confirmed within their time budget are reported INCONCLUSIVE; known finding F17 '
     '(Fortran numerals without exponent letter rejected outside densities)', TV_TECH + ' + CrossHair (symbolic strings) for line kernels', 'DESIGN.md 4/C14')
+
+chk('C07', 'translation_validation',
+    'LAT=2 decks: hexagonal prisms built from four centrally symmetric hexagons with rational vertices (incl. the irregular one of the hexVertices '
+    'docstring), prism axis x/y/z, six or eight planes, every choice of first pair / orientation in a pair / order of the last two side planes, '
+    'FILL arrays with universe 0 and the own universe, symbolic centre / scale / axial bounds / placement; per path and provenance label z3 proves '
+    '(point symbolic) that the written volumes equal the union of the reference elements translated by i a1 + j a2 [+ k a3] with a1 across the '
+    'first-listed plane, a2 across the third-listed one, a3 across the seventh (reference vt/hexref.py: side midpoints).',
+    TV_NOTE + '; hexagon shapes and prism axes are enumerated (symbolic side directions are out of reach); <= 6 elements per lattice', TV_TECH,
+    'DESIGN.md 4/C07')
